@@ -19,15 +19,8 @@ spark = (SparkSession.builder.master("local[1]").config("spark.ui.enabled", "fal
          .config("spark.sql.shuffle.partitions", "1").getOrCreate())
 spark.sparkContext.setLogLevel("ERROR")
 
-SEED = 20261001          # the check's default VERIF_SEED, so that the quick tier's random chains are all in the recording
-cases = c02_gen.gen_cases(random.Random(SEED), "quick")
-extra = c02_gen.chains(random.Random(SEED + 1), 400)
-seen = {cc.key({x: c[x] for x in ("left", "steps", "fin", "data")}) for c in cases}
-for c in extra:
-    k = cc.key({x: c[x] for x in ("left", "steps", "fin", "data")})
-    if k not in seen:
-        seen.add(k)
-        cases.append(c)
+SEED = 20261001          # the check's default VERIF_SEED: the quick tier's cases and the first 600 chains of the thorough tier are recorded
+cases = c02_gen.gen_cases(random.Random(SEED), "thorough", n_chains=600)
 
 out = open("/verif/oracle/c02_pyspark.jsonl", "w")
 n = n_err = 0
